@@ -4,6 +4,7 @@ use vstd::prelude::*;
 //@include prelude/tokens.rs
 //@include prelude/deps.rs
 //@include prelude/containers.rs
+//@include prelude/option.rs
 //@include prelude/strings.rs
 verus! {
 broadcast use str_axioms::axiom_str_eq_is_view_eq;
@@ -70,21 +71,7 @@ verus! {
 //@end
 
 
-// ---------------------------------------------------------------- applicable_to[kind]
-impl vstd::std_specs::core::IndexSpecImpl<&Kind> for [bool; 6] {
-    open spec fn index_req(&self, index: &&Kind) -> bool { true }
-}
-
-// (attr.rs imports std::ops::Index, expand.rs imports syn::Index: the impl lives in its own scope here)
-mod attr_index {
-use super::*;
-use core::ops::Index;
-//@fn attr.rs <ApplicableTo as Index<&Kind>>::index
-//@props C04,C05,C12
-//@spec
-    ensures *r == appl(*self, *index), // #kind-to-bit
-//@end
-}
+//@include units/index_impl.inc
 
 //@fn attr.rs TypeHint::maybe
 //@props C02
